@@ -41,7 +41,7 @@ Qed.
 
 Lemma pending_sdo_action : forall s a, pending (sdo_action c s a) = pending s.
 Proof.
-  intros s a. destruct a as [ub cb|fd cond ub cb|sig ub cb|id|e|sig|]; cbn [sdo_action]; try reflexivity.
+  intros s a. destruct a as [ub cb|fd cond ub cb|sig ub cb|id|e|sig| |]; cbn [sdo_action]; try reflexivity.
   - pose proof (pending_evloop_io s fd cond (snext s)) as H.
     destruct (evloop_io c s fd cond (snext s)) as [s1 i]. cbn [fst] in H. cbn. exact H.
   - apply pending_scancel.
@@ -106,10 +106,10 @@ Qed.
 
 (* C18_signal_reaches, the loop's side: with the latched errno, the set of signals the handler
    has recorded is empty at the end of every pass, whatever the callbacks did *)
-Lemma stick_pending : forall env fuel sleep s s',
-  pending s = [] -> stick fixed_cfg env fuel sleep s = Some s' -> pending s' = [].
+Lemma iteration_pending : forall env fuel sleep s s',
+  pending s = [] -> iteration fixed_cfg env fuel sleep s = Some s' -> pending s' = [].
 Proof.
-  intros env fuel sleep s s' Hp H. unfold stick in H.
+  intros env fuel sleep s s' Hp H. unfold iteration in H. cbn [stop_early fixed_cfg andb] in H.
   set (s1 := up_slog (up_siter s (siter s + 1)) _) in H.
   assert (Hp1 : pending s1 = []) by exact Hp.
   destruct (ppoll s1) as [ret s2] eqn:Epp.
@@ -123,14 +123,29 @@ Proof.
     unfold dispatch_signals in H. apply pending_dispatch_sigs in H. rewrite H. reflexivity.
 Qed.
 
+Lemma stick_pending : forall env fuel sleep s s',
+  pending s = [] -> stick fixed_cfg env fuel sleep s = Some s' -> pending s' = [].
+Proof. intros env fuel sleep s s' Hp H. unfold stick in H. eapply iteration_pending; [|exact H]. exact Hp. Qed.
+
+(* tickit_run: the same after every pass of the loop, whichever callback stops it and when *)
+Lemma run_passes_pending : forall env fuel k s s',
+  pending s = [] -> run_passes fixed_cfg env fuel k s = Some s' -> pending s' = [].
+Proof.
+  induction k as [|k IH]; intros s s' Hp H; cbn [run_passes] in H; [inversion H; subst; exact Hp|].
+  destruct (negb (running s)); [inversion H; subst; exact Hp|].
+  destruct (iteration fixed_cfg env fuel true (if Nat.eqb k 0 then up_running s false else s)) as [s2|] eqn:E; [|discriminate].
+  eapply IH; [|exact H]. eapply iteration_pending; [|exact E]. destruct (Nat.eqb k 0); exact Hp.
+Qed.
+
 Lemma sdo_op_pending : forall env fuel s o s',
   pending s = [] -> sdo_op fixed_cfg env fuel (Some s) o = Some s' -> pending s' = [].
 Proof.
-  intros env fuel s o s' Hp H. destruct o as [a|sl|fd rv|sg]; cbn [sdo_op] in H.
+  intros env fuel s o s' Hp H. destruct o as [a|sl|fd rv|sg|rk]; cbn [sdo_op] in H.
   - inversion H; subst. rewrite pending_sdo_action. assumption.
   - eapply stick_pending; eassumption.
   - inversion H; subst. assumption.
   - inversion H; subst. assumption.
+  - eapply run_passes_pending; [|exact H]. exact Hp.
 Qed.
 
 Lemma fold_sdo_op_none : forall cf env fuel ops, fold_left (sdo_op cf env fuel) ops None = None.
@@ -371,7 +386,7 @@ Qed.
 Lemma keeps_sdo_action : forall id s a, dead s id -> keeps id s (sdo_action c s a).
 Proof.
   intros id s a Hd. destruct Hd as [Hn Hlt] eqn:Ed. clear Ed.
-  destruct a as [ub cb|fd cond ub cb|sig ub cb|id'|e|sig|]; cbn [sdo_action].
+  destruct a as [ub cb|fd cond ub cb|sig ub cb|id'|e|sig| |]; cbn [sdo_action].
   - (* later *)
     split; [split|reflexivity].
     + intros Hin. unfold live_ids in Hin. cbn [iows sgws dlaters drun up_snext up_dlaters] in Hin.
@@ -410,6 +425,7 @@ Proof.
   - split; [split; [exact Hn|exact Hlt]|reflexivity].
   - destruct (is_watched s sig); (split; [split; [exact Hn|exact Hlt]|reflexivity]).
   - apply keeps_refl. split; assumption.
+  - split; [split; [exact Hn|exact Hlt]|reflexivity].
 Qed.
 
 Lemma keeps_sdo_actions : forall id l s, dead s id -> keeps id s (sdo_actions c s l).
@@ -511,15 +527,16 @@ Proof.
       (split; [split; [exact Hn|exact Hlt]|reflexivity]).
 Qed.
 
-Lemma keeps_stick : forall id fuel sleep s s', dead s id -> stick c env fuel sleep s = Some s' -> keeps id s s'.
+Lemma keeps_iteration : forall id fuel sleep s s', dead s id -> iteration c env fuel sleep s = Some s' -> keeps id s s'.
 Proof.
-  intros id fuel sleep s s' Hd H. unfold stick in H.
+  intros id fuel sleep s s' Hd H. unfold iteration in H.
   set (s1 := up_slog (up_siter s (siter s + 1)) _) in H.
   assert (H1 : keeps id s s1) by (destruct Hd as [Hn Hlt]; split; [split; [exact Hn|exact Hlt]|reflexivity]).
   destruct (ppoll s1) as [ret s2] eqn:Epp.
   pose proof (keeps_ppoll id _ _ _ (proj1 H1) Epp) as H2.
   pose proof (keeps_invoke_laters id s2 (proj1 H2)) as H3.
   eapply keeps_trans; [exact H1|]. eapply keeps_trans; [exact H2|]. eapply keeps_trans; [exact H3|].
+  destruct (stop_early c && negb (running (invoke_laters c env s2))); [inversion H; subst; apply keeps_refl; exact (proj1 H3)|].
   destruct (0 <? ret).
   - eapply keeps_io_dispatch; [exact (proj1 H3)|exact H].
   - destruct ((ret <? 0) && ((if errno_late c then errno (invoke_laters c env s2) else errno s2) =? EINTR)).
@@ -528,6 +545,26 @@ Proof.
       { destruct (proj1 H3) as [Hn Hlt]. split; [split; [exact Hn|exact Hlt]|reflexivity]. }
       eapply keeps_trans; [exact H4|]. eapply keeps_dispatch_sigs; [exact (proj1 H4)|exact H].
     + inversion H; subst. apply keeps_refl. exact (proj1 H3).
+Qed.
+
+Lemma keeps_running : forall id s v, dead s id -> keeps id s (up_running s v).
+Proof. intros id s v [Hn Hlt]. split; [split; [exact Hn|exact Hlt]|reflexivity]. Qed.
+
+Lemma keeps_stick : forall id fuel sleep s s', dead s id -> stick c env fuel sleep s = Some s' -> keeps id s s'.
+Proof.
+  intros id fuel sleep s s' Hd H. unfold stick in H. pose proof (keeps_running id s true Hd) as H0.
+  eapply keeps_trans; [exact H0|]. eapply keeps_iteration; [exact (proj1 H0)|exact H].
+Qed.
+
+Lemma keeps_run_passes : forall id fuel k s s', dead s id -> run_passes c env fuel k s = Some s' -> keeps id s s'.
+Proof.
+  induction k as [|k IH]; intros s s' Hd H; cbn [run_passes] in H; [inversion H; subst; apply keeps_refl; exact Hd|].
+  destruct (negb (running s)); [inversion H; subst; apply keeps_refl; exact Hd|].
+  destruct (iteration c env fuel true (if Nat.eqb k 0 then up_running s false else s)) as [s2|] eqn:E; [|discriminate].
+  assert (H0 : keeps id s (if Nat.eqb k 0 then up_running s false else s))
+    by (destruct (Nat.eqb k 0); [apply keeps_running; exact Hd|apply keeps_refl; exact Hd]).
+  pose proof (keeps_iteration id fuel true _ _ (proj1 H0) E) as H1.
+  eapply keeps_trans; [exact H0|]. eapply keeps_trans; [exact H1|]. eapply IH; [exact (proj1 H1)|exact H].
 Qed.
 
 (* C18_cancelled_not_invoked: once a watch is gone -- cancelled by anyone, or a deferred
@@ -540,11 +577,13 @@ Proof.
   - cbn [fold_left] in H.
     destruct (sdo_op c env fuel (Some s) o) as [s1|] eqn:E; [|rewrite fold_sdo_op_none in H; discriminate].
     assert (H1 : keeps id s s1).
-    { destruct o as [a|sl|fd rv|sg]; cbn [sdo_op] in E.
+    { destruct o as [a|sl|fd rv|sg|rk]; cbn [sdo_op] in E.
       - inversion E; subst. apply keeps_sdo_action. assumption.
       - eapply keeps_stick; eassumption.
       - inversion E; subst. destruct Hd as [Hn Hlt]. split; [split; [exact Hn|exact Hlt]|reflexivity].
-      - inversion E; subst. destruct Hd as [Hn Hlt]. split; [split; [exact Hn|exact Hlt]|reflexivity]. }
+      - inversion E; subst. destruct Hd as [Hn Hlt]. split; [split; [exact Hn|exact Hlt]|reflexivity].
+      - pose proof (keeps_running id s true Hd) as H0. eapply keeps_trans; [exact H0|].
+        eapply keeps_run_passes; [exact (proj1 H0)|exact E]. }
     eapply keeps_trans; [exact H1|]. eapply IH; [exact (proj1 H1)|exact H].
 Qed.
 
@@ -647,7 +686,7 @@ Lemma quiet_action : forall s a, sig_quiet a = true ->
   sgws (sdo_action c s a) = sgws s /\ cursor (sdo_action c s a) = cursor s /\
   slog (sdo_action c s a) = slog s /\ siter (sdo_action c s a) = siter s.
 Proof.
-  intros s a H. destruct a as [ub cb|fd cond ub cb|sig ub cb|id|e|sig|]; try discriminate; cbn [sdo_action];
+  intros s a H. destruct a as [ub cb|fd cond ub cb|sig ub cb|id|e|sig| |]; try discriminate; cbn [sdo_action];
     try (repeat split; reflexivity).
   - unfold evloop_io. destruct (find_free (slots s) 0); repeat split; reflexivity.
   - destruct (is_watched s sig); repeat split; reflexivity.
@@ -817,14 +856,40 @@ Definition before_poll (sleep : bool) (s : sst) : sst :=
 
 (* an iteration whose ppoll was interrupted reaches dispatch_signals, after the deferred
    callbacks and whatever they did to errno, with everything the handler recorded *)
-Lemma stick_interrupted : forall env fuel sleep s s2,
+Lemma iteration_interrupted : forall env fuel sleep s s2,
   ppoll (before_poll sleep s) = (-1, s2) ->
-  stick fixed_cfg env fuel sleep s = dispatch_signals fixed_cfg env fuel (invoke_laters fixed_cfg env s2) /\
+  iteration fixed_cfg env fuel sleep s = dispatch_signals fixed_cfg env fuel (invoke_laters fixed_cfg env s2) /\
   pending (invoke_laters fixed_cfg env s2) = pending s2.
 Proof.
   intros env fuel sleep s s2 H. split; [|apply pending_invoke_laters].
-  unfold stick. fold (before_poll sleep s). rewrite H.
+  unfold iteration. fold (before_poll sleep s). rewrite H. cbn [stop_early fixed_cfg andb].
   destruct (ppoll_cases _ _ _ H) as [[Hr _]|[_ He]]; [lia|].
   change (0 <? -1) with false. change (-1 <? 0) with true. cbn [andb errno_late fixed_cfg].
   rewrite He. reflexivity.
 Qed.
+
+(* tickit_tick is one such iteration; tickit_run a sequence of them *)
+Lemma stick_interrupted : forall env fuel sleep s s2,
+  ppoll (before_poll sleep (up_running s true)) = (-1, s2) ->
+  stick fixed_cfg env fuel sleep s = dispatch_signals fixed_cfg env fuel (invoke_laters fixed_cfg env s2) /\
+  pending (invoke_laters fixed_cfg env s2) = pending s2.
+Proof. intros env fuel sleep s s2 H. unfold stick. apply iteration_interrupted. exact H. Qed.
+
+(* the seeded loop that leaves as soon as a deferred callback has called tickit_stop: the signal
+   that interrupted that very ppoll stays recorded, no later iteration dispatches it *)
+Definition wstop_env (cb : Z) : list saction := if cb =? 1 then [SStop] else [].
+Definition wstop_ops : list sop :=
+  [SAct (SSig 10 false 2); SAct (SLater false 1); SArrive 10; STick false; STick false; STick false].
+
+Lemma signal_reaches_refuted_stop_early :
+  exists s', srun_ops stop_early_cfg wstop_env 100 wstop_ops = Some s' /\ pending s' = [10] /\
+             forall e, In (OEv e) (slog s') -> e_kind e <> KSig.
+Proof.
+  eexists. split; [vm_compute; reflexivity|]. split; [reflexivity|].
+  intros e H. cbn in H. repeat (destruct H as [H|H]; [inversion H; subst; discriminate|]). destruct H.
+Qed.
+
+Lemma stop_witness_fixed :
+  srun fixed_cfg wstop_env 100 wstop_ops =
+    Some [OPoll 0; OEv (mkE 1 KLater 3 1 0 0); OEv (mkE 0 KSig 1 1 0 10); OPoll 0; OPoll 0].
+Proof. vm_compute. reflexivity. Qed.
